@@ -44,6 +44,15 @@ Definition marshal_header_sender (s : list N) (buf : wire_log) : outcome wire_lo
 Definition marshal_objectpath (s : list N) : outcome (list N) :=
   do _ <- validate_object_path s; Ok s.
 
+(* marshal/traits/base.rs: impl Marshal for &str: if self.contains('\0') { return Err(..) }; align; write_string;
+   returns the string written *)
+Definition marshal_str (s : list N) : outcome (list N) :=
+  if existsb (N.eqb 0) s then Err else Ok s.
+
+(* marshal/traits/base.rs: impl Marshal for ObjectPath<S>: self.as_ref().marshal(ctx) -- the wrapper is NOT
+   validated again, its constructors are the only guard *)
+Definition marshal_objectpath_typed (p : list N) : outcome (list N) := marshal_str p.
+
 (* `if let Some(x) = &msg.dynheader.field { marshal_header_field_x(byteorder, x, buf)?; }` *)
 Definition if_some (o : option (list N)) (f : list N -> wire_log -> outcome wire_log) (buf : wire_log)
   : outcome wire_log :=
@@ -169,6 +178,34 @@ Proof.
   destruct (validate_object_path s) as [[]| | | |]; cbn [bind]; split; try discriminate; try (intros [H _]; discriminate).
   - intros H. inversion H. auto.
   - intros [_ ->]. reflexivity.
+Qed.
+
+(* every way of constructing the wrapper, then marshalling it with the typed API *)
+Definition objectpath_ctor (f : list N -> outcome (list N)) : Prop :=
+  f = objectpath_new \/ f = objectpath_try_from_str \/ f = objectpath_try_from_string.
+
+Lemma objectpath_ctor_spec f s p : objectpath_ctor f -> (f s = Ok p <-> (ValidPath s /\ p = s)).
+Proof.
+  intros [Hf | [Hf | Hf]]; subst f; unfold objectpath_try_from_str, objectpath_try_from_string; (split;
+    [intros H; split; [apply objectpath_new_spec; eauto|exact (objectpath_new_value s p H)]
+    |intros [Hv ->]; apply objectpath_new_spec in Hv; destruct Hv as [p Hp];
+     now rewrite (objectpath_new_value s p Hp) in Hp]).
+Qed.
+
+Lemma marshal_str_nonnul s : ascii_nonnul s -> marshal_str s = Ok s.
+Proof.
+  intros H. unfold marshal_str. replace (existsb (N.eqb 0) s) with false; [reflexivity|].
+  symmetry. induction H as [|c r Hc _ IH]; [reflexivity|]. cbn [existsb]. rewrite IH.
+  destruct (N.eqb_spec 0 c); [lia|reflexivity].
+Qed.
+
+Lemma typed_path_wire f s p :
+  objectpath_ctor f -> f s = Ok p ->
+  marshal_objectpath_typed p = Ok s /\ marshal_objectpath_typed (objectpath_to_owned p) = Ok s /\ ValidPath s.
+Proof.
+  intros Hf H. apply (objectpath_ctor_spec f s p Hf) in H. destruct H as [Hv ->].
+  unfold marshal_objectpath_typed, objectpath_to_owned.
+  rewrite (marshal_str_nonnul s (valid_path_ascii s Hv)). auto.
 Qed.
 
 Lemma marshal_header_names_total h buf : ok_or_err (marshal_header_names h buf).
